@@ -124,7 +124,7 @@ def check_C11(ctx):
     # classes through the real macro and generated lexers
     nd, ni = sizes(ctx, (24, 14), (200, 30))
     lexer_check(ctx, dict(p_ctx=0.0, p_named=0.0, max_rules=2, max_depth=1, p_diff=0.5, p_builtin=0.1, p_any=0.15,
-                          p_eoi=0.0, p_var=0.0, kinds=['simple']), nd, ni, ["tokens"])
+                          p_eoi=0.0, p_var=0.0, p_template=0.0, kinds=['simple']), nd, ni, ["tokens"])
 
 
 def load_builtin_tables():
@@ -818,7 +818,10 @@ def check_lets(ctx):
             ib = lines_of(b.impl_runs.get(i, []), "I")
             sa = a.model["runs"][i]["S"]
             ctx.coverage["evaluations"] += 1
-            if ia != ib or ia != sa:
+            # the definition with variables and the one with the variables written out must behave alike; when both
+            # differ from the reference in the same way the cause is not the scoping of variables (the inlined
+            # definition has none) and belongs to another property
+            if ia != ib:
                 ctx.violation("let-factoring", dict(describe(a, i), with_lets=ia, inlined=ib, spec=sa,
                                                      inlined_definition=lexdef.rust_lexer(b.name, b.d)))
                 break
